@@ -3,6 +3,7 @@ import Ccp.Proofs.EditLinks
 import Ccp.Proofs.EditFrame
 import Ccp.Proofs.EditMulti
 import Ccp.Proofs.EditPrefix
+import Ccp.Proofs.EditBanner
 /-!
 # C06 — edits change exactly the targeted lines
 
@@ -1344,5 +1345,65 @@ example : exBanner.tree.parents = [0, 0, 0, 0, 4, 4] ∧
     (step exBanner (.appendToFamily 4 " mtu 9000".toList (-1) false)).1.tree.parents = [0, 0, 0, 0, 4, 4, 4] ∧
     (step exBanner (.objInsBefore 2 "y".toList)).1.texts.take 2 = exBanner.texts.take 2 ∧
     (step exBanner (.objInsBefore 2 "y".toList)).1.tree.parents = [0, 0, 0, 0, 0, 5, 5] := by decide
+
+
+/-! ## configs with banner / macro families: the lines below an insertion at a closed position -/
+
+/-- **One line inserted into a config with banner / macro families** (`InsertFrameW`).  State:
+no uncommitted change, C07's invariant, auto-commit on, blank lines kept; the insertion point
+is not inside a family body (`ClosedAt`: every banner / macro start above it finds its
+terminator above it) and the payload starts no family.  Then the lines above keep their
+parents, and an old line at or below the insertion point keeps its parent (index-shifted) or
+is adopted by the new line — only when captured in the sense of `captured_iff`.  For
+`ConfigList.insert(k, txt)`: -/
+theorem insert_parents_families (s : S) (k : Int) (txt : Str)
+    (hd : s.dirty = false) (hinv : FreshInv s) (ha : s.auto = true) (hig : s.cfg.ignoreBlank = false)
+    (hcl : ClosedAt s.cfg s.texts (insertPos s.texts.length k))
+    (hb : isBannerStart txt = false) (hm : s.cfg.ios = true → isMacroStart txt = false) :
+    InsertFrameW s (step s (.insert k txt)).1 (insertPos s.texts.length k) txt := by
+  refine insertFrameW_of_step s _ txt true _ hd hinv ha hig (insertPos_le _ _) hcl hb hm ?_
+  simp only [Edit.step]
+  rw [pyInsert_eq, texts_length]
+
+/-- … for `obj.insert_before(txt)` / `obj.insert_after(txt)` on the object at position `p`: -/
+theorem objInsert_parents_families (s : S) (h p : Nat) (txt : Str)
+    (hd : s.dirty = false) (hinv : FreshInv s) (ha : s.auto = true) (hig : s.cfg.ignoreBlank = false)
+    (hp : posOf s.items h = some p)
+    (hb : isBannerStart txt = false) (hm : s.cfg.ios = true → isMacroStart txt = false) :
+    (ClosedAt s.cfg s.texts p → InsertFrameW s (step s (.objInsBefore h txt)).1 p txt) ∧
+    (ClosedAt s.cfg s.texts (p + 1) → InsertFrameW s (step s (.objInsAfter h txt)).1 (p + 1) txt) := by
+  have hpl : p < s.texts.length := ((handle_position s h).1 p hp).1
+  have hb' : (isBlank txt && s.cfg.ignoreBlank) = false := by simp [hig]
+  constructor
+  · intro hcl
+    exact insertFrameW_of_step s p txt s.stale _ hd hinv ha hig (by omega) hcl hb hm (by simp [Edit.step, hp, hb'])
+  · intro hcl
+    exact insertFrameW_of_step s (p + 1) txt s.stale _ hd hinv ha hig (by omega) hcl hb hm (by simp [Edit.step, hp, hb'])
+
+/-- … and for every successful `append_to_family`: -/
+theorem appendToFamily_parents_families (s : S) (i : Nat) (txt : Str) (ind : Int) (ai : Bool)
+    (hd : s.dirty = false) (hinv : FreshInv s) (ha : s.auto = true) (hig : s.cfg.ignoreBlank = false)
+    (hok : (step s (.appendToFamily i txt ind ai)).2 = .ok ())
+    (hb : isBannerStart (familyText (indentOf s.tree i) s.width txt ind ai) = false)
+    (hm : s.cfg.ios = true → isMacroStart (familyText (indentOf s.tree i) s.width txt ind ai) = false) :
+    ∃ idx, appendIndex s.tree s.width i (familyText (indentOf s.tree i) s.width txt ind ai) = .ok idx ∧
+      (ClosedAt s.cfg s.texts (min idx s.texts.length) →
+        InsertFrameW s (step s (.appendToFamily i txt ind ai)).1 (min idx s.texts.length)
+          (familyText (indentOf s.tree i) s.width txt ind ai)) := by
+  obtain ⟨_, _, _, idx, h4, h5⟩ := step_appendToFamily_ok s i txt ind ai hok
+  refine ⟨idx, h4, fun hcl => insertFrameW_of_step s _ _ true _ hd hinv ha hig (Nat.min_le_right _ _) hcl hb hm ?_⟩
+  rw [h5, pyInsert_eq, insertPos_natCast, texts_length]
+
+/-- the banner example: positions 4, 5, 6 (below the banner family 0–3) are closed, position 2
+(inside the body) is not; a child appended to `interface X` and a line inserted above it
+change no parent -/
+example : closedAtB exBanner.cfg exBanner.texts 4 = true ∧ closedAtB exBanner.cfg exBanner.texts 6 = true ∧
+    closedAtB exBanner.cfg exBanner.texts 2 = false ∧
+    (step exBanner (.appendToFamily 4 " mtu 9000".toList (-1) false)).1.tree.parents = [0, 0, 0, 0, 4, 4, 4] ∧
+    (step exBanner (.objInsBefore 4 "hostname r".toList)).1.tree.parents = [0, 0, 0, 0, 4, 5, 5] := by decide
+example : ClosedAt exBanner.cfg exBanner.texts 4 := closedAt_of_check _ _ _ (by decide)
+/-- inside the body the hypothesis fails and so does the conclusion: a line holding the
+delimiter ends the banner early, the lines behind it leave the family -/
+example : (step exBanner (.objInsBefore 2 "^".toList)).1.tree.parents = [0, 0, 0, 3, 4, 5, 5] := by decide
 
 end Ccp.C06
